@@ -16,6 +16,8 @@ BOOL_OPTS = ["retain_names", "retain_coefficients", "sort_graded", "sort_reverse
 OPS = ["construct", "add", "sub_self", "mul", "pow", "derivative", "gradient", "call_num", "call_partial", "call_staged",
        "call_staged_none", "hessian", "divmod", "divmod_quotient", "divmod_remainder", "derivative2", "derivative_positions", "construct_mixed_dtypes", "getitem",
        "align", "pickle", "sum", "concatenate", "where", "astype", "isconstant_tonumpy", "equal", "clean"]
+# ordering-based functions: the sort options legitimately decide their result, every OTHER option must not
+ORDER_OPS = ["argmax", "argmin", "amax", "amin", "sortable_proxy", "lead_exponent", "lead_coefficient", "maximum", "greater", "sort_like"]
 
 
 def gen(tier, rng):
@@ -25,7 +27,7 @@ def gen(tier, rng):
         if rng.random() < 0.3:
             opts["display_exponent"] = rng.choice(["^", "**"])
             opts["display_multiply"] = rng.choice([" ", "*"])
-        op = rng.choice(OPS)
+        op = rng.choice(OPS + ORDER_OPS)
         if op.startswith("divmod"):
             # C15's quantifier: division is checked under the default retain options only
             opts["retain_names"], opts["retain_coefficients"] = True, False
@@ -120,6 +122,18 @@ def run_op(op, a, b, numpoly):
         return a == a
     if op == "clean":
         return numpoly.clean_attributes(a)
+    if op in ORDER_OPS:
+        # an array whose elements differ in more than one monomial, so that the monomial order matters
+        x = numpoly.variable(3)
+        arr = numpoly.concatenate([(a.ravel() + x[0] * x[1] ** 2)[:1], (b.ravel() + x[0] ** 2 * x[1])[:1],
+                                   (a.ravel() * 0 + x[1] ** 3 + x[2])[:1], (b.ravel() * 0 + x[0] * x[2] ** 2)[:1]])
+        if op in ("argmax", "argmin", "amax", "amin", "sortable_proxy", "lead_exponent", "lead_coefficient"):
+            return getattr(numpoly, op)(arr)
+        if op == "maximum":
+            return numpoly.maximum(arr, arr[::-1])
+        if op == "greater":
+            return numpoly.greater(arr, arr[::-1])
+        return arr[numpy.argsort(numpoly.sortable_proxy(arr))]
     raise KeyError(op)
 
 
@@ -135,12 +149,16 @@ def as_model(r, numpoly):
 
 @check("C15", "options.do_not_change_results", gen,
        functions=("numpoly.polynomial_from_attributes", "numpoly.clean_attributes", "numpoly.postprocess_attributes"),
-       note="bounded: 19 representative operations (construct, combine, differentiate, evaluate, index, align, (un)pickle ...) "
-            "under random settings of the 8 boolean options and 2 display strings; oracle = same operation under default options")
+       note="bounded: 28 representative operations (construct, combine, differentiate, evaluate, index, align, (un)pickle ...) "
+            "under random settings of the 8 boolean options and 2 display strings; oracle = same operation under default options; "
+            "plus 10 ordering-based functions (argmax, amax, sortable_proxy, lead_*, maximum, > ...) whose oracle is the same call "
+            "with the same SORT options and every other option at its default")
 def options_invariance(inp):
     import numpoly
     install_poison()
     defaults = numpoly.get_options(defaults=True)
+    if inp["op"] in ORDER_OPS:
+        defaults = dict(defaults, sort_graded=inp["opts"]["sort_graded"], sort_reverse=inp["opts"]["sort_reverse"])
     with numpoly.global_options(**defaults):
         a0, b0 = operand({"poly": inp["a"]}), operand({"poly": inp["b"]})
         try:
